@@ -451,9 +451,43 @@ func (im *impl) execDec(h *vh.H, op string, nodes []*node) string {
 	return "ok " + dumpMsgOut(ts, m)
 }
 
+// nestingDepth is the maximal bracket nesting of the document, outside string literals.
+func nestingDepth(doc []byte) int {
+	depth, max, inStr, esc := 0, 0, false, false
+	for _, c := range doc {
+		switch {
+		case inStr:
+			if esc {
+				esc = false
+			} else if c == '\\' {
+				esc = true
+			} else if c == '"' {
+				inStr = false
+			}
+		case c == '"':
+			inStr = true
+		case c == '{' || c == '[':
+			depth++
+			if depth > max {
+				max = depth
+			}
+		case c == '}' || c == ']':
+			depth--
+		}
+	}
+	return max
+}
+
 // exactOracle: accepted => canonDoc succeeds and re-encoding the stored message gives exactly
 // canonDoc(document) (C03 first sentence).
 func (im *impl) exactOracle(h *vh.H, op string, ts *typeSet, md protoreflect.MessageDescriptor, root *sRoot, mode string, doc []byte, m protoreflect.Message) {
+	if nestingDepth(doc) > 20000 {
+		// the normaliser and the re-encoder recurse over the document themselves: at the depths of the
+		// thorough stress stream (10^5) the ORACLE overflowed the 256 MiB stack (a false c06-crash; the
+		// decoder under test had long returned). Exactness of deep documents is checked up to depth 20000.
+		h.Count("c03.skip.too-deep-for-oracle")
+		return
+	}
 	parsed, _, perr := parsePrefix(doc)
 	if perr != nil {
 		// the Go tokenizer accepted a prefix my strict reader does not: lenient syntax (not a C03 matter)
